@@ -314,9 +314,11 @@ def replay3(ctx, part, rows, seed, every):
 
 # ------------------------------------------------------------------ ellipsoids / balls
 I2 = [[1, 0], [0, 1]]
-SHAPES_Q = [{"S": I2, "a": 1}, {"S": I2, "a": 2}, {"S": [[1, 0], [0, 4]], "a": 1}, {"S": [[2, 1], [1, 2]], "a": 1},
+# correlated shapes with UNEQUAL diagonals: an ellipse with equal diagonal entries is its own mirror image in the diagonal, so a
+# transposed / mirrored shape factor would go unnoticed on it
+SHAPES_Q = [{"S": I2, "a": 1}, {"S": I2, "a": 2}, {"S": [[1, 0], [0, 4]], "a": 1}, {"S": [[5, 2], [2, 1]], "a": 1},
             {"S": [[2, -1], [-1, 1]], "a": 2}]
-SHAPES_T = SHAPES_Q + [{"S": [[4, 0], [0, 1]], "a": 1}, {"S": [[1, 0], [0, 1]], "a": 3}, {"S": [[5, 2], [2, 1]], "a": 1}]
+SHAPES_T = SHAPES_Q + [{"S": [[4, 0], [0, 1]], "a": 1}, {"S": [[1, 0], [0, 1]], "a": 3}, {"S": [[2, 1], [1, 2]], "a": 1}, {"S": [[1, -2], [-2, 6]], "a": 1}]
 ELL_SLACKS = [[0], [2], [1, 3]]
 
 
